@@ -48,6 +48,7 @@ type task struct {
 	slot     interface{}
 	slotOK   bool
 	matched  bool
+	roundEpoch int          // >= 0: the change counter when the current round of select tries began
 	resumedAt int           // step counter when the task last got the baton
 	exited    chan struct{} // closed when the task's goroutine has ended
 }
@@ -92,7 +93,7 @@ func trace(format string, a ...interface{}) {
 }
 
 func resetTasks() {
-	mainTask = &task{id: 0, wake: make(chan struct{}, 1), idleEpoch: -1, exited: make(chan struct{})}
+	mainTask = &task{id: 0, wake: make(chan struct{}, 1), idleEpoch: -1, roundEpoch: -1, exited: make(chan struct{})}
 	tasks = []*task{mainTask}
 	cur = mainTask
 	dead, deadlock = false, false
@@ -132,7 +133,7 @@ func Go(f func()) {
 		return
 	}
 	taskSeq++
-	t := &task{id: taskSeq, wake: make(chan struct{}, 1), idleEpoch: -1, exited: make(chan struct{})}
+	t := &task{id: taskSeq, wake: make(chan struct{}, 1), idleEpoch: -1, roundEpoch: -1, exited: make(chan struct{})}
 	tasks = append(tasks, t)
 	epoch++
 	record("GO", "", int64(t.id))
@@ -283,6 +284,12 @@ func YieldBlocked() {
 	me := cur
 	noteProgress(me)
 	me.idleEpoch = epoch
+	if me.roundEpoch >= 0 {
+		// the tries of a select were made a while ago (the task may have been preempted since):
+		// whatever changed after they began counts as news
+		me.idleEpoch = me.roundEpoch
+		me.roundEpoch = -1
+	}
 	trace("blocked")
 	for {
 		if len(timers) > 0 {
@@ -340,7 +347,11 @@ func advanceTime() bool {
 	}
 	// a program in which nothing but timers ever happens again (the main task waits for
 	// something that never comes while a ticker keeps ticking) would jump forever
-	jumps++
+	if mainTask != nil && mainTask.sleeping {
+		jumps = 0 // the main task will wake up at a known time: these jumps lead somewhere
+	} else {
+		jumps++
+	}
 	if jumps > 100000 {
 		if !budgetHit {
 			budgetHit = true
@@ -714,6 +725,9 @@ func OnceDo(o *sync.Once, f func()) {
 // tried: a permutation chosen by the schedule (Go chooses among the ready ones at random).
 func SelectOrder(idx ...int) []int {
 	activity++
+	if running && cur != nil {
+		cur.roundEpoch = epoch
+	}
 	out := append([]int(nil), idx...)
 	for i := len(out) - 1; i > 0; i-- {
 		j := schedRand(i + 1)
